@@ -116,7 +116,9 @@ MARKUP = ['ex[a]', 'ex[a b]>ey', 'ex>ey[a]+ez', 'img', 'a', 'input[type]', 'ex[a
           'ex>{QZ1}+ey', 'ex{${2:b} ${1:a}}+ey[t]', 'ex[t="${1:p} ${0}"]', 'ex{${3} ${1} ${2}}>ey[a b]', 'ex[t=""]>ey', "ex[t='' u]",
           # explicit fields in non-ascending order AFTER earlier tabstops and BEFORE later ones
           'ex[a]{${2:b} ${1:a}}+ey[t]', 'ex[a b]>ey{${3} ${1} ${2}}+ez[c]', 'ex[a]>ey[b]{${2:q} ${1:p}}>ez[c d]',
-          'ex[a]>ey[t="${4:x} ${2:y}" u]+ez']
+          'ex[a]>ey[t="${4:x} ${2:y}" u]+ez',
+          # text around the child-insertion field spans several lines; children cause a line change
+          'ex>{[${0}]\nsecond\nthird ${2:t}}>ey*901^ew>ez[a]']
 # expected tabstop indices for templates without explicit fields (r = repeat count); None = only generic checks
 IMPLICIT = {
     'ex[a]': lambda r: [1, 2], 'ex[a b]>ey': lambda r: [1, 2, 3], 'ex>ey[a]+ez': lambda r: [1, 2, 3],
@@ -125,7 +127,7 @@ IMPLICIT = {
     'ex>(ey[a]>ez)*901': lambda r: list(range(1, 2 * r + 1)),
     'ex[t=""]>ey': lambda r: [1, 2], "ex[t='' u]": lambda r: [1, 2, 3],
 }
-CSS = ['p10', 'p', 'p+m', 'bd', 'c#f.5', 'm10-20+p']
+CSS = ['p10', 'p', 'p+m', 'bd', 'c#f.5', 'm10-20+p', 'cnt"x\ny"+p10+m', "ff'a\nb\nc'+p"]
 
 
 def payload_ok(t, lmax):
